@@ -1,5 +1,272 @@
 /-
-  Props/C08.lean — property theorems for C08 (stub; to be filled in).
+  Props/C08.lean — C08: the exported JSON schema is well-formed and admits every serialized valid
+  instance; on the exact sub-fragment every admitted document is accepted by the Deserializer.
+
+  Model: Sem/Schema.lean (`toSchema`, `dialectFix`); validator and well-formedness written from the
+  draft-4 specification: Spec/JsValid.lean (`jsValidFuel`, `wfDocument`); fragments and regions:
+  Spec/SchemaFrag.lean.  The code violates the full statement (see the counterexample theorems,
+  each a known finding); what is proved is the statement restricted by explicit decidable
+  predicates that exclude exactly those regions.
 -/
+import TypedpyModel.Lemmas.SchemaAdmits
+import TypedpyModel.Lemmas.SchemaWf
+import TypedpyModel.Lemmas.SchemaExact
 namespace Typedpy.C08
+open Typedpy Typedpy.Sch
+
+/-- the verdict of the draft-4 validator on a document, for the pair `structure_to_schema`
+    returns (after the dialect fix), with fuel `n` for `$ref` jumps -/
+def schemaAccepts (S : String → String → Bool) (cls : FieldDecl) (n : Nat) (doc : PyVal) : Bool :=
+  jsValidFuel n (fixedPtrDefs cls) S (dialectFix (toSchema cls).1) doc
+
+/-- full-strength statement, admits half (false of the code today, see the counterexamples) -/
+def C08_admits_statement : Prop :=
+  ∀ (O : Oracles) (S : String → String → Bool), (∀ p s, O.reMatch p s = true → S p s = true) →
+  ∀ (cls : FieldDecl) (x j : PyVal), raises cls = false → wellFormed O cls x = true →
+    serialize O cls x = .ok j → schemaAccepts S cls (refDepth cls) j = true
+
+/-- full-strength statement, well-formedness half -/
+def C08_wellformed_statement : Prop :=
+  ∀ cls : FieldDecl, raises cls = false →
+    wfDocument (dialectFix (toSchema cls).1) (fixDefs (toSchema cls).2) = true
+
+/-- **schema_admits (partial).**  For every class declaration in the fragment (unbounded nesting),
+    every regular-expression oracle pair with `match ⇒ search`, every instance in the region (deeply
+    well-formed, outside the known-finding regions) and every fuel that covers the nesting of class
+    references: the emitted schema (with the two draft-4 spellings) accepts the serialization.
+    `ClassRefsFaithful` says that no two different classes share a `__name__`. -/
+theorem schema_admits_partial (O : Oracles) (S : String → String → Bool)
+    (hS : ∀ p s, O.reMatch p s = true → S p s = true) (cls : FieldDecl) (x j : PyVal) (n : Nat)
+    (hfrag : inSchemaFragment cls = true)
+    (hrefs : ClassRefsFaithful (fixedPtrDefs cls) cls)
+    (hn : refDepth cls ≤ n)
+    (hreg : inAdmitRegion O cls x = true)
+    (hser : serialize O cls x = .ok j) :
+    jsValidFuel n (fixedPtrDefs cls) S (classSchema true cls) j = true :=
+  admits_class O S hS (fixedPtrDefs cls) cls x j n hfrag hrefs hn hreg hser
+
+/-- the region of `schema_admits_partial` contains only well-formed instances of the class -/
+theorem region_instances_wellformed (O : Oracles) (cls : FieldDecl) (x : PyVal)
+    (hfrag : inSchemaFragment cls = true) (hreg : inAdmitRegion O cls x = true) :
+    wellFormed O cls x = true :=
+  region_wellFormed O cls x hfrag hreg
+
+/-- **field level, any nesting depth**: the schema of a field accepts the serialization of every
+    conforming value in the region -/
+theorem field_admits_partial (O : Oracles) (S : String → String → Bool)
+    (hS : ∀ p s, O.reMatch p s = true → S p s = true) (D : Defs) (f : FieldDecl) (n : Nat) (v j : PyVal)
+    (hfrag : fragF f = true) (hrefs : RefsFaithful D f) (hn : refDepth f ≤ n)
+    (hc : conforms O f v = true) (hreg : regF O f v = true) (hser : ser O f v = .ok j) :
+    jsValidFuel n D S (emit true f) j = true :=
+  admits_field O S hS D f n v hfrag hrefs hn hc hreg j hser
+
+/-- the "field wrapper" form (one required field, no additional properties): the class's schema is
+    the field's schema and accepts the compact serialization -/
+theorem wrapper_admits_partial (O : Oracles) (S : String → String → Bool)
+    (hS : ∀ p s, O.reMatch p s = true → S p s = true) (D : Defs) (c : ClassOpts) (name : String)
+    (f : FieldDecl) (v j : PyVal) (n : Nat)
+    (hcol : collapses c [name] = true) (hfrag : fragF f = true) (hrefs : RefsFaithful D f)
+    (hn : refDepth f ≤ n) (hc : conforms O f v = true) (hreg : regF O f v = true)
+    (hser : ser O f v = .ok j) :
+    jsValidFuel n D S (classSchema true (.struct c [(name, f)] [])) j = true :=
+  admits_wrapper O S hS D c name f v j n hcol hfrag hrefs hn hc hreg hser
+
+/-- **schema_wellformed (partial).**  For every class declaration in the well-formedness fragment
+    (unbounded nesting) whose class references are faithful, the emitted schema (with the two
+    draft-4 spellings) is a well-formed draft-4 schema: every keyword value has the type and range
+    the meta-schema demands and every `$ref` resolves in the returned definitions
+    (`refs_resolve` is the `$ref` clause of `wfDraft4`). -/
+theorem schema_wellformed_partial (cls : FieldDecl) (hfrag : inWfFragment cls = true)
+    (hrefs : ClassRefsFaithful (fixedPtrDefs cls) cls) :
+    wfDraft4 (fixedPtrDefs cls) (classSchema true cls) = true :=
+  wf_class (fixedPtrDefs cls) cls hfrag hrefs
+
+/-- field level, any nesting depth (this is also what makes every definition well-formed: the
+    definition of a referenced class is the `classSchema` of that class) -/
+theorem field_wellformed_partial (D : Defs) (f : FieldDecl) (hfrag : wfFragF f = true)
+    (hrefs : RefsFaithful D f) : wfDraft4 D (emit true f) = true :=
+  wf_field D f hfrag hrefs
+
+/-- **schema_exact (partial, field level).**  On the exact scalar sub-fragment (Integer with
+    bounds / multiplesOf / a sign class without an explicit bound on the same side; Number and Float
+    with bounds; String with lengths and a start-anchored pattern; Boolean; Enum of literals or of
+    an enum class), with the regular-expression hypothesis `search ⇒ match` for start-anchored
+    patterns made explicit: every document value the field's schema admits is accepted by
+    `deserialize_single_field` and by the validation the constructor then runs. -/
+theorem field_exact_partial (O : Oracles) (R : String → PyVal → Bool) (S : String → String → Bool)
+    (hS : ∀ p s, startAnchored p = true → S p s = true → O.reMatch p s = true)
+    (opts : DeserOpts) (ign : Bool) (f : FieldDecl) (v : PyVal)
+    (hfrag : exactScalar f = true) (h : jsV R S (emit true f) v = true) :
+    ∃ y y', deser O opts ign f v = .ok y ∧ validate O f y = .ok y' :=
+  exact_scalar O R S hS opts ign f v hfrag h
+
+/-! ### a concrete non-trivial input meets the hypotheses -/
+
+def exO : Oracles := ⟨fun p s => p == "^x" && s == "xy"⟩
+def exS : String → String → Bool := fun p s => p == "^x" && s == "xy"
+
+def exInner : FieldDecl :=
+  .struct { name := "Inner", required := ["k"], addl := false, accepts := ["Inner"] }
+    [("k", .integer { min := some ⟨0, 1⟩, max := some ⟨10, 1⟩, exclMax := true }),
+     ("s", .string (some 1) (some 3) (some "^x"))] []
+
+/-- a class with a nested class used twice (one of them inside an array), a positional array, a
+    tuple, a map, an enum, an Optional and a sign-class number -/
+def exCls : FieldDecl :=
+  .struct { name := "Outer", required := ["a", "i"], accepts := ["Outer"] }
+    [("a", .seqPos .list [.integer {}, .string none none none] false {}),
+     ("i", exInner),
+     ("j", .seqOf .list exInner { max := some 2 }),
+     ("t", .tuplePos [.boolean, .enumCls "Color" ["RED", "GREEN"]] false),
+     ("m", .mapOf (.string none none none) (.float { sign := .nonneg }) {}),
+     ("o", .anyOf [.number { mult := some 2 }, .noneF])] []
+
+def exInnerVal (k : Int) : PyVal := .inst "Inner" [("k", .int k), ("s", .str "xy")]
+
+def exVal : PyVal :=
+  .inst "Outer" [("a", .list [.int 1, .str "q"]), ("i", exInnerVal 3), ("j", .list [exInnerVal 0, exInnerVal 9]),
+                 ("t", .tuple [.bool true, .enumv "Color" "GREEN"]),
+                 ("m", .dict [(.str "p", .float ⟨1, 2⟩)]), ("o", .int 4)]
+
+theorem schema_admits_example :
+    inSchemaFragment exCls = true ∧ classRefsFaithfulB (fixedPtrDefs exCls) exCls = true
+    ∧ inAdmitRegion exO exCls exVal = true ∧ refDepth exCls = 2
+    ∧ (match serialize exO exCls exVal with
+       | .ok j => schemaAccepts exS exCls 2 j
+       | .error _ => false) = true := by decide
+
+theorem schema_wellformed_example :
+    inWfFragment exCls = true ∧ classRefsFaithfulB (fixedPtrDefs exCls) exCls = true
+    ∧ wfDocument (dialectFix (toSchema exCls).1) (fixDefs (toSchema exCls).2) = true
+    ∧ structEq (dialectFix (toSchema exCls).1) (classSchema true exCls) = true := by decide
+
+theorem field_exact_example :
+    exactScalar (.integer { min := some ⟨0, 1⟩, max := some ⟨10, 1⟩, exclMax := true, mult := some 5 }) = true
+    ∧ jsV (fun _ _ => false) exS
+        (emit true (.integer { min := some ⟨0, 1⟩, max := some ⟨10, 1⟩, exclMax := true, mult := some 5 }))
+        (.int 5) = true
+    ∧ jsV (fun _ _ => false) exS
+        (emit true (.integer { min := some ⟨0, 1⟩, max := some ⟨10, 1⟩, exclMax := true, mult := some 5 }))
+        (.int 10) = false := by decide
+
+/-! ### the code violates the full statement: kernel-checked counterexamples (known findings) -/
+
+def anyO : Oracles := ⟨fun _ _ => true⟩
+def anyS : String → String → Bool := fun _ _ => true
+
+/-- what the validator says about the serialization of `x` (`true` when serialization fails) -/
+def verdict (cls : FieldDecl) (x : PyVal) : Bool :=
+  match serialize anyO cls x with
+  | .ok j => schemaAccepts anyS cls (refDepth cls) j
+  | .error _ => true
+
+def flat (name : String) (required : List String) (fields : List (String × FieldDecl))
+    (defaults : List (String × PyVal) := []) (ignoreNone : Bool := false) : FieldDecl :=
+  .struct { name := name, required := required, accepts := [name], ignoreNone := ignoreNone } fields defaults
+
+/-- finding `admits:bool-as-number`: `Integer` accepts `True`, which serializes to `true`, which
+    `type: integer` rejects -/
+theorem counterexample_bool_as_number :
+    wellFormed anyO (flat "K" ["a"] [("a", .integer {})]) (.inst "K" [("a", .bool true)]) = true
+    ∧ verdict (flat "K" ["a"] [("a", .integer {})]) (.inst "K" [("a", .bool true)]) = false := by decide
+
+/-- finding `admits:sign-only-float-bound`: `PositiveFloat` is mapped to `minimum: 0.000001` -/
+theorem counterexample_sign_only_float_bound :
+    wellFormed anyO (flat "K" ["f"] [("f", .float { sign := .pos })])
+      (.inst "K" [("f", .float ⟨1, 10000000⟩)]) = true
+    ∧ verdict (flat "K" ["f"] [("f", .float { sign := .pos })])
+      (.inst "K" [("f", .float ⟨1, 10000000⟩)]) = false := by decide
+
+/-- finding `admits:homogeneous-tuple`: `Tuple[Integer]` (any length) is mapped to
+    `items: [integer], additionalItems: false` -/
+theorem counterexample_homogeneous_tuple :
+    wellFormed anyO (flat "K" ["t"] [("t", .tupleOf (.integer {}) false)])
+      (.inst "K" [("t", .tuple [.int 1, .int 2])]) = true
+    ∧ verdict (flat "K" ["t"] [("t", .tupleOf (.integer {}) false)])
+      (.inst "K" [("t", .tuple [.int 1, .int 2])]) = false := by decide
+
+def wrapperInner : FieldDecl :=
+  .struct { name := "Inner", required := ["a"], addl := false, accepts := ["Inner"] } [("a", .integer {})] []
+
+/-- finding `admits:nested-field-wrapper`: a nested class with one required field and no additional
+    properties gets the bare field's schema but serializes as an object -/
+theorem counterexample_nested_field_wrapper :
+    wellFormed anyO (flat "Outer" ["i"] [("i", wrapperInner), ("b", .boolean)])
+      (.inst "Outer" [("i", .inst "Inner" [("a", .int 1)])]) = true
+    ∧ verdict (flat "Outer" ["i"] [("i", wrapperInner), ("b", .boolean)])
+      (.inst "Outer" [("i", .inst "Inner" [("a", .int 1)])]) = false := by decide
+
+/-- finding `admits:default-marked-required`: a field with a default is listed under `required`,
+    but under `_ignore_none` an explicit `None` leaves it unset -/
+theorem counterexample_default_marked_required :
+    (match construct anyO (flat "K" ["b"] [("a", .integer {}), ("b", .integer {})] [("a", .int 5)] true)
+        [("a", .none), ("b", .int 1)] with
+     | .ok y => PyVal.pyEq y (.inst "K" [("b", .int 1)])
+     | .error _ => false) = true
+    ∧ wellFormed anyO (flat "K" ["b"] [("a", .integer {}), ("b", .integer {})] [("a", .int 5)] true)
+      (.inst "K" [("b", .int 1)]) = true
+    ∧ verdict (flat "K" ["b"] [("a", .integer {}), ("b", .integer {})] [("a", .int 5)] true)
+      (.inst "K" [("b", .int 1)]) = false := by decide
+
+/-- finding `admits:required-holds-none`: a required `AnyOf[Integer, None]` holding `None` is
+    dropped by the serializer -/
+theorem counterexample_required_holds_none :
+    wellFormed anyO (flat "K" ["a"] [("a", .anyOf [.integer {}, .noneF]), ("b", .boolean)])
+      (.inst "K" [("a", .none)]) = true
+    ∧ verdict (flat "K" ["a"] [("a", .anyOf [.integer {}, .noneF]), ("b", .boolean)])
+      (.inst "K" [("a", .none)]) = false := by decide
+
+def sameA : FieldDecl :=
+  .struct { name := "Same", required := ["x"], accepts := ["Same"] } [("x", .integer {}), ("y", .integer {})] []
+def sameB : FieldDecl :=
+  .struct { name := "Same", required := ["s"], accepts := ["Same"] } [("s", .boolean), ("t", .boolean)] []
+
+/-- finding `definitions-name-collision`: two different classes with one `__name__` share one
+    definition -/
+theorem counterexample_name_collision :
+    classRefsFaithfulB (fixedPtrDefs (flat "K" ["a", "b"] [("a", sameA), ("b", sameB)]))
+      (flat "K" ["a", "b"] [("a", sameA), ("b", sameB)]) = false
+    ∧ verdict (flat "K" ["a", "b"] [("a", sameA), ("b", sameB)])
+      (.inst "K" [("a", .inst "Same" [("x", .int 1)]), ("b", .inst "Same" [("s", .bool true)])]) = false := by
+  decide
+
+def wfOf (cls : FieldDecl) : Bool := wfDocument (dialectFix (toSchema cls).1) (fixDefs (toSchema cls).2)
+
+/-- finding `ill-formed:required:minItems`: a class without required fields gets `required: []`,
+    which draft 4 forbids (`stringArray` has `minItems: 1`) -/
+theorem counterexample_required_empty :
+    raises (flat "K" [] [("a", .integer {}), ("b", .boolean)]) = false
+    ∧ wfOf (flat "K" [] [("a", .integer {}), ("b", .boolean)]) = false := by decide
+
+/-- finding `ill-formed:patternProperties:type`: the value schema is put directly under
+    `patternProperties` -/
+theorem counterexample_pattern_properties :
+    wfOf (flat "K" ["m"] [("m", .mapOf (.string none none (some "^a")) (.integer {}) {}), ("b", .boolean)])
+      = false := by decide
+
+/-- finding `ill-formed:exclusiveMaximum:dependencies` -/
+theorem counterexample_exclusive_maximum_alone :
+    wfOf (flat "K" ["a"] [("a", .integer { exclMax := true }), ("b", .boolean)]) = false := by decide
+
+/-- finding `ill-formed:multipleOf:minimum` -/
+theorem counterexample_multiple_of_negative :
+    wfOf (flat "K" ["a"] [("a", .integer { mult := some (-2) }), ("b", .boolean)]) = false := by decide
+
+/-- what the Deserializer says about a document the schema admits -/
+def admittedButRejected (cls : FieldDecl) (doc : PyVal) : Bool :=
+  schemaAccepts anyS cls (refDepth cls) doc
+    && (match deserialize anyO {} cls doc with | .ok _ => false | .error _ => true)
+
+/-- finding `exact:positional-shorter`: positional `Tuple` / `Array` items carry no `minItems`, so
+    a shorter array is admitted by the schema and rejected by the Deserializer -/
+theorem counterexample_exact_positional_shorter :
+    admittedButRejected (flat "K" ["t"] [("t", .tuplePos [.integer {}, .boolean] false), ("b", .boolean)])
+      (.dict [(.str "t", .list [.int 1])]) = true := by decide
+
+/-- finding `exact:map-size`: `Map(minItems/maxItems)` is emitted as `minItems` / `maxItems`, which
+    do not apply to objects -/
+theorem counterexample_exact_map_size :
+    admittedButRejected (flat "K" ["m"] [("m", .mapAny { max := some 1 }), ("b", .boolean)])
+      (.dict [(.str "m", .dict [(.str "p", .int 1), (.str "q", .int 2)])]) = true := by decide
+
 end Typedpy.C08
